@@ -616,6 +616,15 @@ class ExprMixin:
                 from . import api
 
                 return self.call_contract(api.CONTRACTS[m], [recv], {}, st, node, implicit=1)
+            if m is not None and kind == "cached_property" and not callable(m):
+                # functools.cached_property under contract: every read yields a value the getter's contract allows (that later
+                # reads return the SAME object is not modelled: an over-approximation).  Sound only for a getter without effects
+                # (the real getter runs once, the contract would be applied at every read).
+                from . import api
+
+                if api.CONTRACTS[m].modifies:
+                    raise Unsupported(f"cached_property {cs.name}.{name} whose contract has `modifies` (the getter runs only on the first read)", node)
+                return self.call_contract(api.CONTRACTS[m], [recv], {}, st, node, implicit=1)
             if m is not None:
                 return Val.obj(BoundMethod(recv, name))
             if cs.repo:
